@@ -8,6 +8,7 @@ package race
 import (
 	"fmt"
 	"os"
+	"runtime/debug"
 	"sync"
 	"testing"
 
@@ -45,7 +46,7 @@ type trace struct {
 func safeRun(ex *fam.Exec) (out *fam.Outcome) {
 	defer func() {
 		if r := recover(); r != nil {
-			out = &fam.Outcome{Panic: fmt.Sprint(r), Canon: "panic: " + fmt.Sprint(r)}
+			out = &fam.Outcome{Panic: fmt.Sprint(r) + "\n" + string(debug.Stack()), Canon: "panic: " + fmt.Sprint(r)}
 		}
 	}()
 	return ex.Run()
@@ -74,8 +75,7 @@ func run(t *rapid.T) {
 		out := safeRun(ex)
 		tr.Build = append(tr.Build, ex.Desc)
 		if out.Panic != "" {
-			core.Violation(t, "C11:panic:sequential", "operation panicked: "+ex.Desc+": "+out.Panic, tr)
-			return
+			core.Probe("operation-panicked-sequentially") // C10's business; a result like any other here
 		}
 		for _, m := range out.New {
 			if len(w.Members) < b.MaxMembers {
@@ -138,12 +138,6 @@ func run(t *rapid.T) {
 		}
 		core.Sample(map[string]interface{}{"build": tr.Build, "goroutines": nclients, "executed": ds})
 	}
-	for _, r := range tr.Executed {
-		if r.conc.Panic != "" {
-			core.Violation(t, "C11:panic", "operation panicked under concurrent use: "+r.Desc+": "+r.conc.Panic, tr)
-			return
-		}
-	}
 	if m, d := w.CheckAll(); m != nil {
 		tr.Detail = d
 		core.Violation(t, "C01:I1:after-concurrent-use", fmt.Sprintf("an existing value changed (m%d = %s): %s", m.ID, m.Origin, clip(d)), tr)
@@ -154,6 +148,11 @@ func run(t *rapid.T) {
 			alone := safeRun(r.ex)
 			if alone.Canon != r.conc.Canon {
 				tr.Conc, tr.Alone = clip(r.conc.Canon), clip(alone.Canon)
+				if r.conc.Panic != "" && alone.Panic == "" {
+					tr.Detail = r.conc.Panic
+					core.Violation(t, "C11:I2:panic-only-when-concurrent", fmt.Sprintf("%s (goroutine %d) panicked under concurrent use but not when run alone", r.Desc, r.Client), tr)
+					return
+				}
 				core.Violation(t, "C11:I2:result-differs", fmt.Sprintf("%s (goroutine %d) returned a different result when run concurrently than when run alone", r.Desc, r.Client), tr)
 				return
 			}
